@@ -288,6 +288,13 @@ CallResult RunCtx::call(Session& s, const CallSpec& c, int stepno, bool monitors
     }
     if (g_shared)
         g_shared->in_call = 1;
+    // block and query parses add diagnostics to an existing document: remember where the new ones start (C06, block form)
+    const bool block_call = (c.entry == E_PART && c.backend == B_BUILDER) || ((c.entry == E_PROP_STR || c.entry == E_PROP_FILE) && c.backend == B_TIGA);
+    size_t errs_before = 0, warns_before = 0;
+    if (block_call && s.doc && !s.tainted) {
+        errs_before = s.doc->get_errors().size();
+        warns_before = s.doc->get_warnings().size();
+    }
     alarm((unsigned)watchdog_s);
     CallResult r = run_call(s, c, stepno);
     alarm(300);
@@ -314,6 +321,23 @@ CallResult RunCtx::call(Session& s, const CallSpec& c, int stepno, bool monitors
     if (r.nonstd) {
         if (violation("C01", "non-std-exception", std::string{"non-std-exception|"} + entry_name(c.entry) + "|" + hint, c.str()))
             return r;
+    }
+    if (monitors && block_call && s.doc && !s.tainted && !r.env_faulted() && is_armed("C06")) {
+        std::string w6;
+        try {
+            w6 = check_c06_block(*s.doc, errs_before, warns_before, c.bytes, c.entry == E_PROP_FILE ? std::string{} : c.xpath);
+        } catch (const std::exception& e) {
+            w6 = std::string{"monitor threw: "} + e.what();
+        }
+        count("c06-block-calls-checked");
+        count("c06-block-diagnostics-checked", s.doc->get_errors().size() + s.doc->get_warnings().size() - errs_before - warns_before);
+        if (!w6.empty()) {
+            size_t q1 = w6.find('\''), q2 = w6.find('\'', q1 == std::string::npos ? 0 : q1 + 1);
+            std::string msg = (q1 != std::string::npos && q2 != std::string::npos) ? w6.substr(q1 + 1, q2 - q1 - 1) : "";
+            std::string kind = q2 == std::string::npos ? w6 : w6.substr(q2 + 1, 14);
+            if (violation("C06", "position-ill-formed", "c06-block|" + msg.substr(0, msg.find(' ')) + "|" + kind, w6 + " after " + c.str() + "; text: " + c.bytes.substr(0, 300)))
+                return r;
+        }
     }
     if (monitors && s.doc && !s.tainted && (c.backend == B_DOC || c.backend == B_BUILDER) && c.entry != E_WRITE) {
         bool ok = !r.threw && c.entry <= E_XTA_FILE && c.backend == B_DOC && !s.doc->has_errors();
